@@ -110,10 +110,11 @@ type model struct {
 	Handover  []uint64 // tss ids of hand-over signings ever created
 	ReqList   []mReq
 	Bal       map[string]int64
+	BuildErr  string // the honest transition(s) that make up the base state did not install the group
 }
 
 func (m *model) Clone() engine.Model {
-	c := &model{Cur: m.Cur, Proposals: m.Proposals, Normal: m.Normal, Reqs: m.Reqs, InDE: m.InDE,
+	c := &model{BuildErr: m.BuildErr, Cur: m.Cur, Proposals: m.Proposals, Normal: m.Normal, Reqs: m.Reqs, InDE: m.InDE,
 		NextDE: map[string]uint64{}, Spoiled: map[uint64]bool{}, Bal: map[string]int64{},
 		Handover: append([]uint64(nil), m.Handover...), ReqList: append([]mReq(nil), m.ReqList...)}
 	if m.Tr != nil {
@@ -180,7 +181,20 @@ func bal(w *engine.World, ctx sdk.Context, a sdk.AccAddress) int64 {
 	return w.App.BankKeeper.GetBalance(ctx, a, "uband").Amount.Int64()
 }
 
-func (s *spec) Build(w *engine.World) (sdk.Context, engine.Model) {
+// Build creates the base state.  The base itself is a run of the protocol (an honest proposal, key
+// generation, hand-over signature and the execution time passing); if it does not install the expected
+// current group the failure is reported as a violation by the single event "base" instead of crashing.
+func (s *spec) Build(w *engine.World) (ctx sdk.Context, mm engine.Model) {
+	defer func() {
+		if r := recover(); r != nil {
+			ctx = engine.Fork(w.Root)
+			mm = &model{BuildErr: fmt.Sprint(r), NextDE: map[string]uint64{}, Spoiled: map[uint64]bool{}, Bal: map[string]int64{}}
+		}
+	}()
+	return s.build(w)
+}
+
+func (s *spec) build(w *engine.World) (sdk.Context, engine.Model) {
 	c := s.cfg
 	tk, bk := w.App.TSSKeeper, w.App.BandtssKeeper
 	ctx := engine.Fork(w.Root)
@@ -438,6 +452,9 @@ func (s *spec) dkgNext(w *engine.World, ctx sdk.Context, m *model, pg *preGroup)
 
 func (s *spec) Enabled(w *engine.World, ctx sdk.Context, mm engine.Model, depth int) []string {
 	m := mm.(*model)
+	if m.BuildErr != "" {
+		return []string{"base"}
+	}
 	tk, bk := w.App.TSSKeeper, w.App.BandtssKeeper
 	var out []string
 	now := ctx.BlockTime()
@@ -608,6 +625,10 @@ func (s *spec) Step(w *engine.World, ctx sdk.Context, mm engine.Model, ev string
 	var st engine.StepResult
 	tk, bk := w.App.TSSKeeper, w.App.BandtssKeeper
 	parts := strings.Split(ev, ":")
+	if ev == "base" {
+		st.Violate("honest-complete-transition-did-not-install-the-group", "while building the base state (honest proposal, key generation, hand-over signature, blocks past the exec time): %s", m.BuildErr)
+		return ctx, st
+	}
 	now := ctx.BlockTime()
 	pCur := uint64(bk.GetCurrentGroup(ctx).GroupID)
 	switch parts[0] {
@@ -786,6 +807,9 @@ func (s *spec) Step(w *engine.World, ctx sdk.Context, mm engine.Model, ev string
 			next, ok := s.oneBlock(w, ctx, m, dt, &st)
 			ctx = next
 			if !ok {
+				if len(st.Violations) > 0 && st.Violations[0].Fingerprint != "block-halt" {
+					s.compare(w, ctx, m, &st, ev)
+				}
 				return ctx, st
 			}
 			// the full comparison runs after every block of a macro step
@@ -1087,7 +1111,7 @@ func (s *spec) oneBlock(w *engine.World, ctx sdk.Context, m *model, dt time.Dura
 			nFail++
 		}
 	}
-	if nOK != executed || nFail != dropped {
+	if len(st.Violations) == 0 && (nOK != executed || nFail != dropped) {
 		st.Violate(fmt.Sprintf("transition-outcome-events:success=%d/%d,failed=%d/%d", nOK, executed, nFail, dropped),
 			"block at %s: %d group_transition_success and %d group_transition_failed events, reference expects %d and %d", T, nOK, nFail, executed, dropped)
 	}
